@@ -1,5 +1,6 @@
 /- line-protocol driver for C09: `drv_c09 expand` (model of preprocess.c) | `drv_c09 spec` (C11 6.10.3 specification) |
-   `drv_c09 expandh` (model, output tokens with their hide sets).
+   `drv_c09 expandh` (model, output tokens with their hide sets) | `drv_c09 strz` (the `#` operator on one argument: model,
+   specification, and whether the model's text is one string literal for the lexer).
    Core Lean only (nothing imported here may import Mathlib, or the executable will not link). -/
 import ChibiVerif.Driver.PPCmd
 
@@ -8,6 +9,7 @@ def main (args : List String) : IO UInt32 := do
   | "expand" :: _ => ChibiVerif.Driver.ppMain false
   | "spec" :: _ => ChibiVerif.Driver.ppMain true
   | "expandh" :: _ => ChibiVerif.Driver.ppMainH
+  | "strz" :: _ => ChibiVerif.Driver.ppMainStrz
   | _ =>
-    IO.eprintln "usage: drv_c09 expand|spec|expandh"
+    IO.eprintln "usage: drv_c09 expand|spec|expandh|strz"
     return 2
